@@ -75,9 +75,10 @@ const (
 	fCopiedID       = "copied-id"               // victim's identity id, attacker's public key and signatures
 	fBlockVictimKey = "copied-block-victim-key" // victim's identity block, victim's key in `key`: signature cannot verify
 	fBlockOwnKey    = "copied-block-own-key"    // victim's identity block, attacker's key in `key`: signature verifies against `key`
+	fIDKeyBadSigs   = "copied-id-key-bad-sigs"  // victim's id and public key, attacker's identity signatures (and entry signature)
 )
 
-var forgeKinds = []string{fNonWriter, fCopiedID, fBlockVictimKey, fBlockOwnKey}
+var forgeKinds = []string{fNonWriter, fCopiedID, fBlockVictimKey, fBlockOwnKey, fIDKeyBadSigs}
 
 // Forge builds an entry for log logID authored (really) by the attacker.
 // victim is the authorised identity that is impersonated (unused for
@@ -89,6 +90,9 @@ func (a *Adv) Forge(kind, logID string, payload []byte, next, refs []cid.Cid, cl
 	case fNonWriter:
 	case fCopiedID:
 		claimed.ID = victim.ID
+	case fIDKeyBadSigs:
+		claimed.ID = victim.ID
+		claimed.PublicKey = victim.PublicKey
 	case fBlockVictimKey, fBlockOwnKey:
 		claimed.ID = victim.ID
 		claimed.PublicKey = victim.PublicKey
